@@ -307,7 +307,37 @@ func GenerateProp(pr *Program, prop string, onlyFunc string) *PropResult {
 		if onlyFunc != "" && !strings.Contains(c.FuncName, onlyFunc) {
 			continue
 		}
-		if c.Trusted || c.IsPred {
+		if c.IsPred {
+			continue
+		}
+		if c.Trusted {
+			// nothing of a trusted contract is proved - except its declared frame, which is checked against the inferred
+			// write set of the body (static), so that an abstraction never hides a write the callers rely on not happening
+			if fi, ok := pr.ByName[k]; ok && c.HasMod && fi.Decl != nil && fi.Decl.Body != nil {
+				fx := NewExec(pr)
+				ws := WriteSet{}
+				fx.collectWrites(fi.Decl.Body, fi.Pkg.P.TypesInfo, fi.Pkg, ws, map[*FuncInfo]bool{fi: true})
+				allowed := map[string]bool{}
+				for _, m := range c.Modifies {
+					allowed[m] = true
+				}
+				var extra []string
+				for m := range ws {
+					if !allowed[m] && !allowed["*"] {
+						extra = append(extra, m)
+					}
+				}
+				sort.Strings(extra)
+				src := "modifies " + strings.Join(c.Modifies, ", ") + " (frame of a trusted abstraction)"
+				if len(extra) > 0 {
+					src += " — but the body may also write: " + strings.Join(extra, ", ")
+				}
+				tag := pr.fnTagOf(fi)
+				res.Reports = append(res.Reports, &FuncReport{Func: fi.Name, Pkg: fi.Pkg.Path, Prop: c.Prop(), Obls: []*Obligation{staticObl(tag+"/frame#modifies", c.Prop(), "frame", len(extra) == 0, pr.Pos(fi.Decl.Pos()), src)}})
+				res.Funcs = append(res.Funcs, tag)
+			} else if !ok {
+				res.Unbound = append(res.Unbound, k)
+			}
 			continue
 		}
 		if c.IsLemma {
